@@ -8,6 +8,7 @@ def build(ctx):
     import contracts.relocate  # noqa
     common.pass_tasks(ctx)
     ctx.task('contracts.exprs:task_exprs')
+    ctx.task('contracts.pipeline:task_pipeline')      # assemble() establishes what each pass contract assumes
     ctx.task('contracts.relocate:task_relocate')
     for p in ('resolve_instructions', 'resolve_strings', 'resolve_sequences', 'transform_shorthand_packs', 'resolve_packs', 'resolve_include_bytes'):
         ctx.task('contracts.emit:task_emit_pass', p)
